@@ -17,7 +17,7 @@ def typeOfF (sub : Fields) : Option Str :=
   | some (.str k) => some k
   | _ => none
 
-def plainB (Rp : List Str) (k : Str) : Bool := k != s%"config" && k != s%"points" && !Rp.contains k
+def plainB (Rp : List Str) (k : Str) : Bool := k != s%"config" && !Rp.contains k
 
 
 /-- the maximal run of blocks of type `t` at the head of the items -/
